@@ -488,7 +488,7 @@ class Hist:
         self.trace.append(("via", compact, inst_f, via_o))
         self.regs.append((compact, cname, rename(E.reify(twin, S.struct_attrs), "_R"), reg_o))
         o = {"idx": idx, "cls": cname, "at": self.n_ops, "compact": compact, "sn": sn, "reg": reg_o, "fast": fast_o,
-             "via": via_o, "clause": None,
+             "via": via_o, "clause": None, "conf": dict(self.conf),      # the flags in force at this moment
              "inst": rename(E.reify(twin, S.struct_attrs), "_R")}
         if reg_o[0] == "ok":
             o["clause"] = self.judge(cname, fast_o, fast_v, reg_v, "") or self.judge(cname, via_o, via_v, reg_v, "Serializer:")
@@ -575,7 +575,7 @@ def hist_tags(h, ops, ob):
         dc = envd[declared]
         if d[1] != declared:
             tags.add("subclass-instance-in-base-field")
-        sn, compact = h.conf.get(declared, (False, False))
+        sn, compact = ob.get("conf", h.conf).get(declared, (False, False))
         if compact and len(dc["fields"]) == 1:
             if nested:
                 tags.add("nested-compact")
